@@ -21,11 +21,42 @@ open Model.Sleep
 
 /-! ## the source skeleton the model mirrors -/
 
-def expect_sleep_nextWaker : List String := ["if[(==) s localList nil]", "then", "for", "cond[(&&) verifPoint verifNextLoad (==) atomic LoadPointer & s sharedList nil]", "call[atomic LoadPointer(& s sharedList)]", "if[! block]", "then", "ret[nil]", "fi", "call[atomic StoreUintptr(& s waitingG,preparingG)]", "if[(&&) verifPoint verifNextRecheck (!=) atomic LoadPointer & s sharedList nil]", "call[atomic LoadPointer(& s sharedList)]", "then", "call[atomic StoreUintptr(& s waitingG,0)]", "break", "fi", "call[gopark(commitSleep,& s waitingG,\"sleeper\",traceEvGoBlockSelect,0)]", "rof", "call[atomic SwapPointer(& s sharedList,nil)]", "call[Waker(atomic SwapPointer & s sharedList nil)]", "assign[v]", "for", "cond[(!=) v nil]", "assign[cur]", "assign[v]", "assign[cur next]", "assign[s localList]", "rof", "fi", "assign[w]", "assign[s localList]", "ret[w]"]
-def expect_sleep_Fetch : List String := ["for", "call[s nextWaker(block)]", "assign[w]", "if[(==) w nil]", "then", "ret[- 1,false]", "fi", "call[usleeper(s)]", "call[atomic SwapPointer(& w s,usleeper s)]", "call[Sleeper(atomic SwapPointer & w s usleeper s)]", "assign[old]", "if[(==) old & assertedSleeper]", "then", "ret[w id,true]", "fi", "rof"]
-def expect_sleep_enqueue : List String := ["for", "call[atomic LoadPointer(& s sharedList)]", "call[Waker(atomic LoadPointer & s sharedList)]", "assign[v]", "assign[w next]", "if[atomic CompareAndSwapPointer & s sharedList uwaker v uwaker w]", "call[uwaker(v)]", "call[uwaker(w)]", "call[atomic CompareAndSwapPointer(& s sharedList,uwaker v,uwaker w)]", "then", "break", "fi", "rof", "for", "call[atomic LoadUintptr(& s waitingG)]", "assign[g]", "if[(==) g 0]", "then", "ret[]", "fi", "if[atomic CompareAndSwapUintptr & s waitingG g 0]", "call[atomic CompareAndSwapUintptr(& s waitingG,g,0)]", "then", "if[(!=) g preparingG]", "then", "call[goready(g,0)]", "fi", "fi", "rof"]
-def expect_sleep_Assert : List String := ["if[(&&) verifPoint verifAssertLoad (==) atomic LoadPointer & w s usleeper & assertedSleeper]", "call[atomic LoadPointer(& w s)]", "call[usleeper(& assertedSleeper)]", "then", "ret[]", "fi", "call[usleeper(& assertedSleeper)]", "call[atomic SwapPointer(& w s,usleeper & assertedSleeper)]", "call[Sleeper(atomic SwapPointer & w s usleeper & assertedSleeper)]", "assign[s]", "call[s enqueueAssertedWaker(w)]"]
-def expect_sleep_Clear : List String := ["if[(&&) verifPoint verifClearLoad (!=) atomic LoadPointer & w s usleeper & assertedSleeper]", "call[atomic LoadPointer(& w s)]", "call[usleeper(& assertedSleeper)]", "then", "ret[false]", "fi", "call[usleeper(& assertedSleeper)]", "call[atomic CompareAndSwapPointer(& w s,usleeper & assertedSleeper,nil)]", "ret[atomic CompareAndSwapPointer & w s usleeper & assertedSleeper nil]"]
+def expect_sleep_nextWaker : List String :=
+  ["if[(==) v0 localList nil]", "then", "for",
+   "cond[(&&) verifPoint verifNextLoad (==) atomic LoadPointer & v0 sharedList nil]",
+   "call[atomic LoadPointer(& v0 sharedList)]", "if[! v1]", "then", "ret[nil]", "fi",
+   "call[atomic StoreUintptr(& v0 waitingG,preparingG)]",
+   "if[(&&) verifPoint verifNextRecheck (!=) atomic LoadPointer & v0 sharedList nil]",
+   "call[atomic LoadPointer(& v0 sharedList)]", "then", "call[atomic StoreUintptr(& v0 waitingG,0)]", "break",
+   "fi", "call[gopark(commitSleep,& v0 waitingG,\"sleeper\",v2,0)]", "rof",
+   "call[atomic SwapPointer(& v0 sharedList,nil)]", "call[Waker(atomic SwapPointer & v0 sharedList nil)]",
+   "assign[v3]", "for", "cond[(!=) v3 nil]", "assign[v4]", "assign[v3]", "assign[v4 next]", "assign[v0 localList]",
+   "rof", "fi", "assign[v5]", "assign[v0 localList]", "ret[v5]"]
+def expect_sleep_Fetch : List String :=
+  ["for", "call[v0 nextWaker(v1)]", "assign[v4]", "if[(==) v4 nil]", "then", "ret[- 1,false]", "fi",
+   "call[usleeper(v0)]", "call[atomic SwapPointer(& v4 s,usleeper v0)]",
+   "call[Sleeper(atomic SwapPointer & v4 s usleeper v0)]", "assign[v5]", "if[(==) v5 & assertedSleeper]", "then",
+   "ret[v4 id,true]", "fi", "rof"]
+def expect_sleep_enqueue : List String :=
+  ["for", "call[atomic LoadPointer(& v0 sharedList)]", "call[Waker(atomic LoadPointer & v0 sharedList)]",
+   "assign[v2]", "assign[v1 next]", "if[atomic CompareAndSwapPointer & v0 sharedList uwaker v2 uwaker v1]",
+   "call[uwaker(v2)]", "call[uwaker(v1)]",
+   "call[atomic CompareAndSwapPointer(& v0 sharedList,uwaker v2,uwaker v1)]", "then", "break", "fi", "rof", "for",
+   "call[atomic LoadUintptr(& v0 waitingG)]", "assign[v3]", "if[(==) v3 0]", "then", "ret[]", "fi",
+   "if[atomic CompareAndSwapUintptr & v0 waitingG v3 0]", "call[atomic CompareAndSwapUintptr(& v0 waitingG,v3,0)]",
+   "then", "if[(!=) v3 preparingG]", "then", "call[goready(v3,0)]", "fi", "fi", "rof"]
+def expect_sleep_Assert : List String :=
+  ["if[(&&) verifPoint verifAssertLoad (==) atomic LoadPointer & v0 s usleeper & assertedSleeper]",
+   "call[atomic LoadPointer(& v0 s)]", "call[usleeper(& assertedSleeper)]", "then", "ret[]", "fi",
+   "call[usleeper(& assertedSleeper)]", "call[atomic SwapPointer(& v0 s,usleeper & assertedSleeper)]",
+   "call[Sleeper(atomic SwapPointer & v0 s usleeper & assertedSleeper)]", "assign[v1]",
+   "call[v1 enqueueAssertedWaker(v0)]"]
+def expect_sleep_Clear : List String :=
+  ["if[(&&) verifPoint verifClearLoad (!=) atomic LoadPointer & v0 s usleeper & assertedSleeper]",
+   "call[atomic LoadPointer(& v0 s)]", "call[usleeper(& assertedSleeper)]", "then", "ret[false]", "fi",
+   "call[usleeper(& assertedSleeper)]",
+   "call[atomic CompareAndSwapPointer(& v0 s,usleeper & assertedSleeper,nil)]",
+   "ret[atomic CompareAndSwapPointer & v0 s usleeper & assertedSleeper nil]"]
 
 theorem source_skeleton_pinned :
     Gen.Shapes.sleep_nextWaker = expect_sleep_nextWaker ∧ Gen.Shapes.sleep_Fetch = expect_sleep_Fetch ∧
